@@ -28,13 +28,14 @@ AddSource == \E e \in Range0(LE(st)), lab \in NL :
 AddTarget == \E e \in Range0(LE(st)), lab \in NL :
              st' = LAddEdgeTarget(st, e, lab).st /\ Em(Edit, "lax.add_edge_target", P11, [pre |-> st, e |-> e, label |-> lab])
 Unify == \E v \in Nodes, w \in Nodes : st' = LUnify(st, v, w) /\ Em(Edit, "lax.unify", <<"C09", "C11">>, [pre |-> st, v |-> v, w |-> w])
-\* identifiers: valid, duplicated, out of range
-DeleteNodes == \E ids \in SeqsUpTo(0 .. LN(st), 2) :
+\* identifiers: valid, duplicated, out of range; lists of up to 2 (3 in the "ids3" family: non-adjacent duplicates)
+IdL == IF "ids3" \in Fam THEN 3 ELSE 2
+DeleteNodes == \E ids \in SeqsUpTo(0 .. LN(st), IdL) :
              /\ Em(Edit, "lax.delete_nodes", P11, [pre |-> st, ids |-> ids])
              /\ Em(Edit, "lax.h.delete_nodes_witness", P11, [pre |-> st, ids |-> ids])
              /\ Em(Edit, "lax.h.delete_nodes", P11, [pre |-> st, ids |-> ids])
              /\ (IF DelAccepts(ids, LN(st)) THEN st' = LDeleteNodesOpen(st, ids).st ELSE st' = st)
-DeleteEdges == \E ids \in SeqsUpTo(0 .. LE(st), 2) :
+DeleteEdges == \E ids \in SeqsUpTo(0 .. LE(st), IdL) :
              /\ Em(Edit, "lax.delete_edges", P11, [pre |-> st, ids |-> ids])
              /\ Em(Edit, "lax.h.delete_edge", P11, [pre |-> st, ids |-> ids])        \* deprecated alias
              /\ (IF DelAccepts(ids, LE(st)) THEN st' = LDeleteEdges(st, ids) ELSE st' = st)
